@@ -120,7 +120,7 @@ def run_shard(ctx):
 
     @given(cases(max_nodes))
     def test(case):
-        check_case(ctx, case)
+        runner.guarded(ctx, check_case, case)
 
     runner.drive(ctx, test, ctx.n(9600, 120000))
 
